@@ -164,6 +164,95 @@ func dispatchScenario(letters []string, api string) func() func() []string {
 	}
 }
 
+// slowHeaders is a header repository whose ProcessHeader takes (virtual) time.
+type slowHeaders struct {
+	*headers.Repository
+	delay time.Duration
+	busy  *bool
+}
+
+func (s slowHeaders) ProcessHeader(ctx context.Context, h *wire.BlockHeader) error {
+	*s.busy = true
+	vsched.Sleep(s.delay)
+	*s.busy = false
+	return s.Repository.ProcessHeader(ctx, h)
+}
+
+// watchedConn is a byteConn that notes reads made while the slow handler is in the middle of its
+// message: only the dispatcher can be the reader then, and it must not touch the stream before the
+// handler of the previous message has finished with it.
+type watchedConn struct {
+	byteConn
+	busy     *bool
+	overlaps *int
+}
+
+func (c *watchedConn) Read(b []byte) (int, error) {
+	if *c.busy {
+		*c.overlaps++
+	}
+	return c.byteConn.Read(b)
+}
+
+// slowHandlerScenario (C14): a headers message whose handling takes longer than the dispatcher's
+// patience (its warning timers: 3 s, 10 s for tx, one minute for block), followed by a ping. The
+// dispatcher keeps waiting for the handler; it does not go on to the next message while the
+// previous one is still being read.
+func slowHandlerScenario(delay time.Duration) func() func() []string {
+	return func() func() []string {
+		store := vstore.New()
+		repo := headers.NewRepository(headers.DefaultConfig(), store)
+		repo.InitializeWithGenesis()
+		peers := bitcoin_reader.NewPeerRepository(store, "")
+		busy, overlaps := false, 0
+		node := bitcoin_reader.NewBitcoinNode("127.0.0.1:8333", "/verif/", bitcoin_reader.DefaultConfig(), slowHeaders{repo, delay, &busy}, peers)
+		node.VerifOpenOutgoing()
+		node.VerifSetInterrupt(make(chan interface{}))
+		if err := node.VerifAccept(bg); err != nil {
+			panic(err)
+		}
+		letters := []string{"headers[block1,block2]", "ping"}
+		var stream []byte
+		for _, l := range letters {
+			stream = append(stream, netsim.Letters[l]...)
+		}
+		conn := &watchedConn{byteConn: byteConn{r: bytes.NewReader(stream)}, busy: &busy, overlaps: &overlaps}
+		handled := 0
+		var handleErr error
+		vsched.GoNamed("reader", func() {
+			for range letters {
+				if err := node.VerifHandleMessage(bg, conn); err != nil {
+					handleErr = err
+					return
+				}
+				handled++
+			}
+		})
+		return func() []string {
+			var problems []string
+			if overlaps > 0 {
+				problems = append(problems, fmt.Sprintf("next-message-read-while-handler-running: the stream was read %d times while the handler of the previous message was still busy with it", overlaps))
+			}
+			if handleErr != nil {
+				problems = append(problems, "well-formed-stream-refused: "+handleErr.Error())
+			}
+			if repo.Height() != 2 {
+				problems = append(problems, fmt.Sprintf("headers-not-processed: repository height %d after a headers message with blocks 1 and 2", repo.Height()))
+			}
+			label(fmt.Sprintf("handled=%d overlaps=%d", handled, overlaps))
+			return problems
+		}
+	}
+}
+
+func c14Scenarios(thorough bool) []*scenario {
+	var r []*scenario
+	for _, d := range []time.Duration{time.Second, 4 * time.Second, 70 * time.Second} {
+		r = append(r, &scenario{name: fmt.Sprintf("dispatch/slow-headers-handler-%s+ping", d), bounds: []int{0, 1}, body: slowHandlerScenario(d), steps: 20000})
+	}
+	return r
+}
+
 func c15Scenarios(thorough bool) []*scenario {
 	bounds := []int{0, 1, 2}
 	if thorough {
